@@ -161,6 +161,34 @@ def stale_requested_history():
                 kind="valid")
 
 
+def gen_exhaustive():
+    """Thorough tier: one binary on cores (0,0,1) and (1,0,2); every miss pattern of the two chips over three
+    attempts x both modes x wait x n_tries 0..2 x what was there before (nothing / another core waiting under
+    the same app id / under another app id / a requested core waiting)."""
+    import itertools
+    subsets = [[], [[0, 0]], [[1, 0]], [[0, 0], [1, 0]]]
+    data = [(3 * i) % 256 for i in range(24)]
+    old = [9, 8, 7, 6]
+    out = []
+    for sched in itertools.product(subsets, repeat=3):
+        for use_count, wait, n_tries, before in itertools.product([True, False], [True, False], [0, 1, 2], range(4)):
+            cores = {(0, 0): [list(IDLE) for _ in range(18)], (1, 0): [list(IDLE) for _ in range(18)]}
+            if before == 1:
+                cores[(0, 0)][5] = [WAIT, 30, old]
+            elif before == 2:
+                cores[(0, 0)][5] = [WAIT, 31, old]
+            elif before == 3:
+                cores[(1, 0)][2] = [WAIT, 30, old]
+            out.append(dict(machine=dict(buffer=16, base=0x60240000, vcpu=0xe5007000,
+                                         chips=[[0, 0, cores[(0, 0)]], [1, 0, cores[(1, 0)]]],
+                                         sched=[list(m) for m in sched]),
+                            binaries=[data],
+                            calls=[dict(fn="load", map=[[0, [[0, 0, [1]], [1, 0, [2]]]]], app_id=30, wait=wait,
+                                        n_tries=n_tries, use_count=use_count, form="one")],
+                            kind="valid"))
+    return out
+
+
 # ------------------------------------------------------------------ canonical form of a trace
 SV_VCPU_BASE_ADDR = 0xf5007f00 + 0xcc
 
@@ -323,6 +351,8 @@ def in_domain(c, k):
     chips = {(x, y) for x, y, _ in m["chips"]}
     if m["buffer"] % 4 or not 4 <= m["buffer"] <= 1024 or not 0 <= k["app_id"] <= 255:
         return False
+    if k.get("n_tries") is not None and k["n_tries"] < 0:      # "number of attempts to make": no attempt at all
+        return False
     seen = set()
     for b, ts in k["map"]:
         data = c["binaries"][b]
@@ -478,29 +508,42 @@ def oracle(c, ci, k, pre, o):
     final = RUN if (ok and not wait) else WAIT
     loaded = {core: post[core] == [final, app, c["binaries"][b]] for core, b in named.items()}
     stale_other = any(core not in named and s[0] == WAIT and s[1] == app for core, s in before.items())
+    # how the call decided that everything was loaded: by the count diagnostic (its last verification is a
+    # count whose reply -- the simulator's ground truth -- equals the number of requested cores) or by reading
+    # every remaining core's state
+    counts = [i for i, e in enumerate(o["trace"]) if e[3] == 22 and e[4] == 1]
+    count_decided = bool(ok and use_count and counts
+                         and not any(e[3] == 2 and e[:2] != [255, 255] for e in o["trace"][counts[-1] + 1:])
+                         and o["trace"][counts[-1]][8] == len(named))
 
     def key_for(core):
+        """Which known way of going wrong, if any, explains that `core` was taken for loaded."""
         if before[core][0] == WAIT:
-            return STALE_KEY
-        if use_count and stale_other:
-            return K3_KEY
+            return STALE_KEY            # the core itself was already in `wait`: neither check can tell
+        if count_decided and stale_other:
+            return K3_KEY               # the count was made up by another core waiting under the app id
         return None
     if ok:
+        seen = set()
         for core in sorted(named):
             if not loaded[core]:
-                found.append((key_for(core) or "returned-with-core-not-loaded",
-                              "load_application returned normally but core %r holds state %d, app id %d, %s image"
+                key = key_for(core) or "returned-with-core-not-loaded"
+                if key in seen:
+                    continue
+                seen.add(key)
+                found.append((key, "load_application returned normally but core %r holds state %d, app id %d, %s image"
                               % (core, post[core][0], post[core][1],
                                  "the right" if post[core][2] == c["binaries"][named[core]] else "not the named")))
-                break
     else:
         told = {(x, y, p) for b, ts in res[1] for x, y, ps in ts for p in ps}
         told_b = {(x, y, p): b for b, ts in res[1] for x, y, ps in ts for p in ps}
         missing = {core for core in named if not loaded[core]}
         if told != missing or any(told_b[core] != named[core] for core in told & set(named)):
-            bad = sorted(missing - told)
-            key = (key_for(bad[0]) if bad else None) or "error-names-wrong-cores"
-            found.append((key, "SpiNNakerLoadingError names %r, not loaded are %r" % (sorted(told), sorted(missing))))
+            keys = {key_for(core) or "error-names-wrong-cores" for core in missing - told}
+            if told - missing or any(told_b[core] != named.get(core) for core in told):
+                keys.add("error-names-wrong-cores")
+            for key in sorted(keys):
+                found.append((key, "SpiNNakerLoadingError names %r, not loaded are %r" % (sorted(told), sorted(missing))))
     # ---- no core that was not requested is loaded
     started = ok and not wait
     for core, s in sorted(post.items()):
@@ -532,7 +575,7 @@ def run(chk, args):
                     "(sorted before comparing)"]
     chk.assumptions += ["binaries are multiples of 4 bytes with at most 255 blocks; the buffer size reported by "
                         "sver is a multiple of 4 in 4..1024; app ids are bytes; requested chips exist; every "
-                        "core is named for at most one binary (outside: correspondence only)",
+                        "core is named for at most one binary; n_tries >= 0 (outside: correspondence only)",
                         "the only faults are chips missing a whole flood fill; reads, signals and counts arrive; "
                         "sockets and the clock are replaced by the simulator (no wall-clock races)",
                         "a chip accepts a block only if it is the next one in order at the next address "
@@ -545,12 +588,14 @@ def run(chk, args):
         cases = [f["replay"]["case"] for f in rp.get("failures", []) if "case" in f.get("replay", {})]
         cases += [b["replay"]["case"] for b in rp.get("no_longer_checks", []) if "case" in b.get("replay", {})]
     else:
-        n = 400 if chk.tier == "quick" else 12000
+        n = 400 if chk.tier == "quick" else 8000
         cases = []
         for i in range(n):
             mal = MALFORMED[(i // 8) % len(MALFORMED)] if i % 8 == 7 else None
             cases.append(gen_case(chk.rng, mal))
         fixed = [k3_history(), stale_requested_history()]
+        if chk.tier != "quick":
+            fixed += gen_exhaustive()
         if os.path.exists(corpus_path):
             fixed += json.load(open(corpus_path))
         cases = fixed + cases
@@ -575,8 +620,7 @@ def run(chk, args):
             if k["fn"] == "load":
                 chk.count("outcome:" + oc["result"][0])
                 chk.count("mode:" + ("count" if defaults(k)[2] else "state"))
-                chk.count("attempts:%d" % max([0] + [sum(1 for f in split_fills(oc["trace"])[0])]) if False else
-                          "fills:%d" % min(9, len(oc["fills"])))
+                chk.count("fills:%d" % min(9, len(oc["fills"])))
                 if any(f["missed"] for f in oc["fills"]):
                     chk.count("calls-with-a-missed-fill")
             for key, what in oracle(c, ci, k, pre, oc):
@@ -647,6 +691,8 @@ def run(chk, args):
                             "waiting/running by earlier sessions (45%%), per-fill miss sets with rate in {0,.15,.3,.5,.8,1}, "
                             "1-3 calls on one controller (93%% load_application, both modes, wait, n_tries 0-3, one- and "
                             "two-argument forms); every 8th history malformed (%s); preceded by the K3 and the "
-                            "stale-requested-core witnesses and corpus/C09.json; non-trivial = an in-domain "
+                            "stale-requested-core witnesses and corpus/C09.json; thorough adds the exhaustive enumeration of 3072 "
+                            "histories (2 chips x 3 attempts: every miss pattern x both modes x wait x n_tries 0..2 x 4 "
+                            "earlier states) and 8000 random histories; non-trivial = an in-domain "
                             "load_application call and (a missed fill or a core already waiting or an earlier call); "
                             "distinct by hash of the whole history" % ", ".join(MALFORMED))
